@@ -807,7 +807,7 @@ def neighbour_copy(rng, m):
     """a second mesh of the same class next to / touching / apart from m"""
     p = m.p
     ext = p.max(axis=1) - p.min(axis=1)
-    mode = rng.choice(["touch", "touch", "apart", "mirror", "parts"])
+    mode = rng.choice(["touch", "touch", "apart", "mirror", "parts", "parts-raw"])
     d = rng.randrange(p.shape[0])
     if mode == "touch":
         sh = np.zeros(p.shape[0])
@@ -839,6 +839,18 @@ def op_add(rng, m, ctx=None):
             a = a[:-1]
         b = sorted(set(range(nt)) - set(a))
         m1, m2 = m.restrict(np.array(a)), m.restrict(np.array(b))
+    elif mode == "parts-raw":
+        # the left operand keeps the whole vertex array (and two more points at its end): vertices that no
+        # cell uses, also after the last used one
+        if nt < 2 or not type(m).__name__.endswith("1"):
+            return None
+        a = rand_subset(rng, nt, proper=True)
+        if len(a) == nt:
+            a = a[:-1]
+        b = sorted(set(range(nt)) - set(a))
+        extra = m.p[:, :2] + 64.0
+        m1 = type(m)(np.hstack((m.p, extra)), m.t[:, a])
+        m2 = m.restrict(np.array(b))
     else:
         m1, m2 = m, other
     rec = note({"op": "add", "mode": mode, "left": descr(m1), "right": descr(m2)})
@@ -846,7 +858,7 @@ def op_add(rng, m, ctx=None):
     if type(out) is not type(m):
         raise Bad("join changes the mesh class", rec)
     cms, _ = check_cells([(m1, range(m1.t.shape[1]), round8), (m2, range(m2.t.shape[1]), round8)], [out],
-                         merge=True)
+                         merge=True, allow_unused=(mode == "parts-raw"))
     if out.boundaries or out.subdomains:
         raise Bad("join invents tags", rec)
     if mode == "parts":
@@ -854,6 +866,10 @@ def op_add(rng, m, ctx=None):
         check_cells([(m, range(nt), round8)], [out], merge=False)
     rec["cellmap"] = None
     rec["T"] = None
+    if mode == "parts-raw":
+        # (the unused vertices of the left operand are legitimately still there: drop them before the result
+        # goes through the generic validity checks and into the next operation)
+        out = out.remove_unused_nodes()
     return out, rec
 
 
